@@ -148,9 +148,57 @@ func withPhis(raw map[*ssa.Phi]ssa.Value, f func()) {
 	f()
 }
 
+// layoutAssume, when set, holds the assumptions of the path exploration the layout is extracted
+// under: a component of a tuple returned by a module helper is then described by what the helper
+// returns for it on the paths those assumptions allow (all of them must agree).
+var layoutAssume []atomAssume
+
+func withAssume(as []atomAssume, f func()) {
+	old := layoutAssume
+	layoutAssume = as
+	defer func() { layoutAssume = old }()
+	f()
+}
+
+// tupleComponentDesc: v is component #i of the tuple a module helper returns.
+func tupleComponentDesc(ex *ssa.Extract) (string, bool) {
+	if layoutAssume == nil {
+		return "", false
+	}
+	call, ok := ex.Tuple.(*ssa.Call)
+	if !ok {
+		return "", false
+	}
+	g := call.Call.StaticCallee()
+	if g == nil || !inModule(g) || len(g.Blocks) == 0 {
+		return "", false
+	}
+	w := (&Walk{Fn: g, Assume: assumeAll(layoutAssume...)}).FromEntry()
+	if w.overflow || len(w.Returns) == 0 {
+		return "", false
+	}
+	seen := ""
+	for _, ro := range w.Returns {
+		if ex.Index >= len(ro.Raw) {
+			return "", false
+		}
+		d := ""
+		withPath(w, func() { withPhis(ro.RawEnv, func() { d = srcDesc(ro.Raw[ex.Index]) }) })
+		if seen != "" && d != seen {
+			return "", false
+		}
+		seen = d
+	}
+	return seen, seen != ""
+}
+
 func srcDesc(v ssa.Value) string {
 	for {
 		switch x := v.(type) {
+		case *ssa.Extract:
+			if d, ok := tupleComponentDesc(x); ok {
+				return d
+			}
 		case *ssa.Phi:
 			if r, ok := phiResolve[x]; ok && r != ssa.Value(x) {
 				v = r
